@@ -214,3 +214,72 @@ Print Assumptions C01_step.
 Theorem C01_calls_are_feed : forall P L s fuel, yields P s L -> (length L < fuel)%nat -> nd_all P fuel s = map Ok L.
 Proof. exact nd_all_yields. Qed.
 Print Assumptions C01_calls_are_feed.
+
+(* ---- typed descriptors in the PMT: no premise about descriptors left ----
+   C01_roundtrip_typed_desc: C01_roundtrip for streams whose descriptor loops hold any mix of the 23 typed DVB / MPEG
+   tags, unknown tags and user-defined tags (the 25 classes of C14's typed_rt; zero-item bodies included; each inside the
+   domain of its C14 round trip; loop below 4096 bytes), or no descriptors.  typed_desc (Proofs/PsiTypedDesc.v) asks for
+   the descriptors in the form parseDescriptors returns them -- Length = body size, only the body of the tag present
+   (Forall2 wf_entry ds ds) -- because that is the form in which the PMT listed by [expect] carries them;
+   C13_typed_desc_written / C14_parsed_form_is_normal: every list of C14's domain is written as the bytes of that form.
+   The four premises of C01_roundtrip are C13_typed_desc_premises (parseDescriptors at the loop's offset inside the
+   section: C14_loop_body_at_offset), C13_typed_desc_bytes, the empty loop, and the PMT size equation (from C14_len). *)
+Require Import Proofs.DescRoundTripAll Proofs.PsiTypedDesc Proofs.RoundTripTypedDesc.
+
+Theorem C01_roundtrip_typed_desc : forall period ops, history_ok typed_desc (new_muxer period) ops ->
+  demux_all (concat (map mout_bytes (snd (mux_run (new_muxer period) ops)))) =
+  map Ok (expect (new_muxer period) [] ops).
+Proof. exact roundtrip_history_typed. Qed.
+Print Assumptions C01_roundtrip_typed_desc.
+
+Theorem C01_roundtrip_per_pid_typed_desc : forall period ops, history_ok typed_desc (new_muxer period) ops ->
+  exists L, demux_all (concat (map mout_bytes (snd (mux_run (new_muxer period) ops)))) = map Ok L /\
+    forall x, x <> C_PIDPAT -> x <> C_pmtStartPID -> filter (on_x x) L = written_on x (new_muxer period) ops.
+Proof. exact roundtrip_per_pid_typed. Qed.
+Print Assumptions C01_roundtrip_per_pid_typed_desc.
+
+(* the hypotheses are satisfiable: the history of C01_roundtrip_inhabited with a stream that carries six descriptors of
+   five different classes (ISO 639 language, stream identifier, registration, a content descriptor without items,
+   maximum bitrate, a private descriptor); both PMTs that must come out list the stream with exactly these descriptors *)
+Example C01_roundtrip_typed_desc_inhabited :
+  history_ok typed_desc (new_muxer 40) rtt_hist /\
+  map DemuxerData_PID (expect (new_muxer 40) [] rtt_hist) = [0; 4096; 257; 0; 4096; 257] /\
+  map (fun d => match DemuxerData_PMT d with
+                | Some pmt => map PMTElementaryStream_ElementaryStreamDescriptors (PMTData_ElementaryStreams pmt)
+                | None => []
+                end) (expect (new_muxer 40) [] rtt_hist) = [[]; [ex_typed_loop]; []; []; [ex_typed_loop]; []].
+Proof. split; [exact rtt_history_ok|exact rtt_expect_shape]. Qed.
+
+(* ---- ... and for descriptors AS THE CALLER WRITES THEM ----
+   A caller rarely passes a descriptor in parsed form: the struct's Length is usually left 0 (the writer ignores it) and
+   nothing stops him from leaving bodies of other tags set.  op_parsed o on relates two calls that are equal except that
+   AddElementaryStream receives, in [ops], ANY descriptor list of C14's domain (Forall2 wf_entry ds ds': each entry inside
+   the round-trip domain of its tag, whatever its Length and the bodies of other tags hold) and, in [opsn], its parsed
+   form ds'.  C01_mux_written_bytes: the Muxer returns the same results and counts and emits the same bytes for both
+   histories, call by call (a lock-step simulation over every operation: the Muxer reads descriptors only through
+   writeDescriptorsWithLength and the two length sums, which C14_parsed_form_is_normal shows equal).
+   C01_roundtrip_typed_desc_written: hence demultiplexing what the Muxer wrote for [ops] yields exactly
+   [expect] of [opsn] -- every PMT lists the streams with their descriptors in parsed form (derived Length filled in,
+   zero-item bodies as bare headers), everything else as in C01_roundtrip. *)
+Require Import Proofs.RoundTripNorm.
+
+Theorem C01_mux_written_bytes : forall period ops opsn, Forall2 op_parsed ops opsn ->
+  snd (mux_run (new_muxer period) opsn) = snd (mux_run (new_muxer period) ops).
+Proof. exact mux_written_bytes. Qed.
+Print Assumptions C01_mux_written_bytes.
+
+Theorem C01_roundtrip_typed_desc_written : forall period ops opsn,
+  Forall2 op_parsed ops opsn -> history_ok typed_desc (new_muxer period) opsn ->
+  demux_all (concat (map mout_bytes (snd (mux_run (new_muxer period) ops)))) =
+  map Ok (expect (new_muxer period) [] opsn).
+Proof. exact roundtrip_history_written. Qed.
+Print Assumptions C01_roundtrip_typed_desc_written.
+
+(* satisfiable: the stream of C01_roundtrip_typed_desc_inhabited added with Length fields 0 / 99 / 200, a content
+   descriptor whose item list is empty and a stray user-defined body behind the stream identifier (ex_typed_written) *)
+Example C01_roundtrip_typed_desc_written_inhabited :
+  Forall2 op_parsed rtt_hist_written rtt_hist /\ history_ok typed_desc (new_muxer 40) rtt_hist /\
+  map PMTElementaryStream_ElementaryStreamDescriptors
+      (match rtt_hist_written with MAdd e :: _ => [e] | _ => [] end) = [ex_typed_written] /\
+  ex_typed_written <> ex_typed_loop.
+Proof. split; [exact rtt_hist_parsed|]. split; [exact rtt_history_ok|]. split; [reflexivity|discriminate]. Qed.
